@@ -651,8 +651,14 @@ pub fn gen_rename_args(src: &mut Src, m: &Message) -> RenameArgs {
         let base = src.pick(&names).clone();
         let i = src.below(base.0.len());
         let present = Name(base.0[i..].to_vec());
-        match src.weighted(&[8, 3, 2, 2, 2, 2, 2]) {
+        match src.weighted(&[8, 3, 2, 2, 2, 2, 2, 2]) {
             0 => (present, "present"),
+            7 => {
+                // a literal `*` label in front of a name of the packet (nothing special about it for the renamer)
+                let mut ls = vec![b"*".to_vec()];
+                ls.extend(present.0.iter().skip(if present.0.len() > 1 { 1 } else { 0 }).cloned());
+                (gens::fit(Name(ls)), "asterisk-label")
+            }
             6 => match gens::bit5_twin(src, &present) {
                 // near miss: a non-letter byte differs in bit 5 only
                 Some(t) => (t, "near-miss-bit5-of-non-letter"),
@@ -690,6 +696,12 @@ pub fn gen_rename_args(src: &mut Src, m: &Message) -> RenameArgs {
         }
     };
     let source = if source.is_root() { Name::from_dotted("absent.invalid") } else { source };
+    if kind == "asterisk-label" && src.chance(160) {
+        // target with a `*` label as well
+        let mut ls = vec![b"*".to_vec()];
+        ls.extend(Name::from_dotted(*src.pick(&["example.net", "t.example", "org"])).0);
+        return RenameArgs { target: Name(ls), source, suffix: src.chance(100), kind };
+    }
     let target = match src.weighted(&[6, 2, 2, 2]) {
         0 => {
             let t = gens::gen_name(src, &mut ctx);
@@ -1012,6 +1024,7 @@ pub fn check_c07(ctx: &Ctx, known: &KnownFindings) -> Report {
         "source:near-miss-length-byte-inside-label",
         "source:near-miss-bit5-of-non-letter",
         "rename-after-failed-rename",
+        "source:asterisk-label",
         "compress-family:nested",
         "source:absent",
         "mode:suffix",
